@@ -35,3 +35,12 @@ package object
 //gvc:  ensures id: result == c.Hash
 //gvc:  ensures kid: keyid(result) == keyid(c.Hash)
 //gvc:end
+
+// Blob.Reader: a fresh reader positioned at the start of the blob's content
+// (spec_objdata / spec_objlen: the stored bytes; trusted storage behaviour).
+//gvc:func (*Blob).Reader
+//gvc:  trusted
+//gvc:  params b
+//gvc:  results r err
+//gvc:  ensures fresh: err == nil ==> r != nil && r.#pos == 0 && r.#data == spec_objdata(b) && r.#n == spec_objlen(b) && 0 <= r.#n && r.#n <= 0x4000000000000000
+//gvc:end
